@@ -46,6 +46,8 @@ func c10Values() []interface{} {
 		bson.A{D(E("b", bson.A{int32(0), int32(5)})), D(E("b", bson.A{int32(2)}))}, bson.A{D(E("b", bson.A{int32(0), int32(5)}))},
 		// negative and wide numbers of every numeric type (sign extension in the $bits family, $mod of negatives)
 		int32(-1), int32(-6), int64(-5), -3.0, int64(1<<35 | 2), bson.A{int32(-2), D(E("b", int32(-1)))},
+		// decimal128 values next to doubles that only look equal (9.99 as a double is not 9.99)
+		dec("9.99"), dec("0.1"), dec("1"), bson.A{dec("9.99"), 9.99},
 		// the ends of the 64-bit range in both numeric types that can hold them
 		int64(math.MinInt64), -9223372036854775808.0, bson.A{int64(math.MaxInt64), 9223372036854775808.0},
 		// an embedded empty document next to a non-empty one
@@ -77,7 +79,7 @@ func c10Leaves() []c10Leaf {
 	E := func(k string, v interface{}) bson.E { return bson.E{Key: k, Value: v} }
 	paths := []string{"a", "a.b", "a.0", "a.b.0", "a.0.b", "c", "a.5", "a.b.7"}
 	cmpOperands := []interface{}{nil, int32(1), int32(2), int64(1), 1.5, math.NaN(), "a", "b", true, primitive.DateTime(1000), oid(1),
-		D(E("b", int32(1))), bson.A{int32(1), int32(2)}, bson.A{}, bson.D{}, int32(-1), int64(math.MinInt64), -9223372036854775808.0, int64(math.MaxInt64)}
+		D(E("b", int32(1))), bson.A{int32(1), int32(2)}, bson.A{}, bson.D{}, int32(-1), int64(math.MinInt64), -9223372036854775808.0, int64(math.MaxInt64), 9.99, 0.1, dec("9.99"), dec("1")}
 	lists := []bson.A{{int32(1)}, {int32(1), "a"}, {nil}, {int32(2), 1.5}, {bson.A{int32(1), int32(2)}}, {D(E("b", int32(1)))}, {}, {"b", true, int32(2)}}
 	var out []c10Leaf
 	add := func(path, op string, operand interface{}) {
